@@ -111,22 +111,60 @@ void h_run(Ctx &c)
 	switch (forced >= 0 ? (unsigned)forced : t.weighted({ 3, 4, 3 })) {
 	case 0: { // round trip
 		unsigned n = t.flip() ? LENS[t.choose(sizeof LENS / sizeof *LENS)] : t.choose(101);
+		// "every byte array": now and then one whose length is around 2^8, 2^12 or 2^16
+		// (the parser looks for a ':' in the rest of the text at every line start, so parsing a dump is quadratic:
+		// the 2^16 sizes are parsed back in windows, below)
+		static const unsigned BIG[] = { 255, 256, 257, 271, 272, 511, 512, 4095, 4096, 4097 };
+		static const unsigned HUGE[] = { 65535, 65536, 65537, 70001 };
+		bool big = c.feat(2) && !t.enumerating && t.weighted({ 8, 1 }) == 1;
+		if (big) {
+			n = t.weighted({ 6, 1 }) == 0 ? BIG[t.choose(sizeof BIG / sizeof *BIG)] : HUGE[t.choose(sizeof HUGE / sizeof *HUGE)];
+			if (n > 65000)
+				c.cls("dump-of-65535-bytes-or-more");
+			c.cls("dump-of-256-bytes-or-more");
+		}
 		std::vector<uint8_t> data(n);
-		unsigned mode = t.choose(3);
+		unsigned mode = big ? 1 + t.choose(2) : t.choose(3);
 		for (unsigned i = 0; i < n; i++)
 			data[i] = mode == 0 ? (uint8_t)t.choose(256) : mode == 1 ? (uint8_t)(i * 17 + 1) : (uint8_t)(255 - i);
 		char *txt = nullptr;
 		int r = ah_dump(data.data(), n, &txt);
 		std::string text = txt ? txt : "";
 		free(txt);
-		c.note("dump of %u bytes -> \"%s\"", n, printable(text).c_str());
+		if (c.want_log)
+			c.note("dump of %u bytes -> \"%s\"%s", n, printable(text.substr(0, 400)).c_str(), text.size() > 400 ? "..." : "");
 		CHECK(c, r == (int)n, "hex_dump_to_file returned %d for %u bytes", r, n);
 		std::string why;
 		if (!c.failed && !dump_format_ok(text, n, why))
 			c.fail("dump of %u bytes is not 16 lower-case pairs per line: %s: \"%s\"", n, why.c_str(),
-			       printable(text).c_str());
+			       printable(text.substr(0, 2000)).c_str());
 		if (c.failed)
 			break;
+		if (n > 5000) {
+			// parsing is quadratic in the text (see above): a dump this long is parsed back in three windows of
+			// whole lines - the head, a generated middle, the tail - each a self-contained text (format checked above)
+			unsigned lines = (n + 15) / 16, W = 32;
+			unsigned starts[3] = { 0, W + (unsigned)t.choose(lines - 2 * W), lines - W };
+			for (unsigned w = 0; w < 3 && !c.failed; w++) {
+				size_t from = (size_t)starts[w] * 33, first = (size_t)starts[w] * 16;
+				std::string win = text.substr(from, w == 2 ? std::string::npos : (size_t)W * 33);
+				size_t cnt = w == 2 ? n - first : (size_t)W * 16;
+				ah_begin(win.data(), win.size());
+				std::vector<int> got;
+				if (!drain(c, win, got, false))
+					break;
+				bool same = got.size() == cnt;
+				for (size_t i = 0; same && i < cnt; i++)
+					same = got[i] == data[first + i];
+				if (!same)
+					c.fail("parsing lines %u.. of the dump of %u bytes returned %zu bytes, not bytes %zu..%zu of the array (window \"%s\")",
+					       starts[w], n, got.size(), first, first + cnt - 1, printable(win.substr(0, 200)).c_str());
+			}
+			c.cls("round-trip");
+			c.cls("round-trip-more-than-one-line");
+			c.nontrivial = true;
+			break;
+		}
 		ah_begin(text.data(), text.size());
 		std::vector<int> got;
 		if (!drain(c, text, got, false))
@@ -139,7 +177,7 @@ void h_run(Ctx &c)
 			for (int v : got)
 				g += std::to_string(v) + " ";
 			c.fail("parsing the dump of %u bytes returned %zu bytes [%s] (dump \"%s\")", n, got.size(), g.c_str(),
-			       printable(text).c_str());
+			       printable(text.substr(0, 2000)).c_str());
 		}
 		c.cls("round-trip");
 		if (n > 16) {
